@@ -193,6 +193,18 @@ func init() {
 			}
 			return m.force(Lazy{ta[0], symName(m, a[0])})
 		},
+		"NoSep": func(m *M, fn *ssa.Function, a []Value) Value {
+			s := m.force(a[0]).(Str)
+			sep := strArg(m, a[1])
+			if s.conc {
+				if strings.Contains(s.s, sep) {
+					panic(pathEnd{"assume-false"})
+				}
+				return nil
+			}
+			m.assume("(not " + m.hasSep(s, sep).t + ")")
+			return nil
+		},
 		"Resolved": func(m *M, fn *ssa.Function, a []Value) Value {
 			i := m.force(a[0]).(Iface)
 			return cBool(i.u == nil || i.u.resolved)
@@ -305,6 +317,17 @@ func init() {
 			}
 			if !types.Comparable(x.t) {
 				return cBool(false)
+			}
+			if xs, ok := m.force(x.v).(Str); ok {
+				// texts: identity of the value (the same concrete text, or the very same atom)
+				ys := m.force(y.v).(Str)
+				if xs.conc || ys.conc || xs.isArr || ys.isArr {
+					if r := m.strEq(xs, ys); r.conc {
+						return r
+					}
+					return cBool(false)
+				}
+				return cBool(xs.lenT == ys.lenT && xs.labT == ys.labT)
 			}
 			return m.valEq(x.v, y.v)
 		},
@@ -493,6 +516,34 @@ func init() {
 				r = m.ropeConcat(r, m.force(e).(Str))
 			}
 			return r
+		},
+		"strings.Split": func(m *M, fn *ssa.Function, a []Value) Value {
+			s := m.force(a[0]).(Str)
+			sep, ok := concStr(m, a[1])
+			if !ok || len(sep) != 1 {
+				panic(engineErr("strings.Split with a separator other than one concrete byte"))
+			}
+			var parts Agg
+			if cs, isC := concStr(m, s); isC {
+				for _, p := range strings.Split(cs, sep) {
+					parts = append(parts, cStr(p))
+				}
+			} else {
+				rest := s
+				for n := 0; ; n++ {
+					if n > 16 {
+						panic(engineErr("strings.Split: more than 16 pieces"))
+					}
+					t := m.ropeCut(rest, sep).(Tuple)
+					if !m.branch(t[2].(Bool)) {
+						parts = append(parts, rest)
+						break
+					}
+					parts = append(parts, t[0])
+					rest = t[1].(Str)
+				}
+			}
+			return Slice{arr: m.newObj(parts), ln: len(parts), cp: len(parts)}
 		},
 		"strings.Cut": func(m *M, fn *ssa.Function, a []Value) Value {
 			s := m.force(a[0]).(Str)
